@@ -2,6 +2,7 @@
    Property theorems only: each is closed by [exact] of a lemma proved in Proofs/, its
    statement is pinned with [Check], and its assumptions are printed. *)
 From CC Require Import Base.Prelude Base.Scalar Base.Ty Model.Bytes Proofs.BytesProofs.
+From CC Require Import Model.TvJson Proofs.TvJsonProofs.
 
 (* Writing any list of Rust integers as a non-bit scalar type and reading it back with the
    128-bit reader returns, for every element, x mod 2^w sign-extended for signed types. *)
@@ -57,3 +58,66 @@ Print Assumptions C13_reader_unsigned_exact.
 Print Assumptions C13_bits_pack_unpack.
 Print Assumptions C13_bits_reject.
 Print Assumptions C13_check_type_iff_layout.
+
+(* ---------------------------------------------------------------------------------------------
+   JSON half (Model/TvJson.v mirrors typed_value_serialization.rs over an abstract JSON tree;
+   typed values are (type, bytes) as in Model/Bytes.v, so the byte theorems above apply to the
+   very readers and writers used here).
+
+   [wf t v]: v is a value TypedValue::new accepts for t at every level of the type tree, its
+   bytes are bytes, array dimensions are non-negative, and t contains neither a zero-length vector
+   whose element type is not the empty tuple nor a named tuple without fields.  For every such
+   typed value, of every type tree, printing succeeds and the printed tree parses back to a typed
+   value of the same type that TypedValue::is_equal accepts.  Elements are whatever the bytes hold:
+   every value of every scalar type, negative and 128-bit ones included, and bit arrays with stray
+   bits beyond their size (which is why the conclusion is is_equal and not equality of bytes). *)
+Theorem C13_json_roundtrip : forall t v, wf t v ->
+  exists j v', print_tv t v = Ok j /\ parse_tv j = Ok (t, v') /\ is_equal (t, v) (t, v') = Ok true.
+Proof. exact json_roundtrip. Qed.
+
+(* What the numbers in the JSON are: writing any Rust integers as a non-bit scalar type and
+   reading them with the reader the serializer uses for that type (to_flattened_array_u8 for u8,
+   _i8 for i8, ... _i128 for i128) gives each element's own value modulo 2^w, in two's complement
+   for signed types - negative numbers print negative, u128 prints up to 2^128-1.  (C13_enc_dec_u128
+   composed with the reader theorems.) *)
+Theorem C13_json_prints_value : forall st xs, st <> Bit -> Forall rust_int xs ->
+  exists b, vec_to_bytes st xs = Ok b /\
+            rmap (map (reader st)) (vec_u128_from_bytes st b) = Ok (map (sval st) xs).
+Proof. exact json_prints_value. Qed.
+
+(* Parsing never panics (nor runs out of fuel: there is none), on any JSON tree whatever: every
+   malformed document is an Err. *)
+Theorem C13_json_parse_total : forall j, parse_tv j <> Panic /\ parse_tv j <> OutOfFuel.
+Proof. exact json_parse_total. Qed.
+
+(* The statement without the two exclusions of [wf] is false in /repo; the faithful model refutes
+   it with these witnesses (both reproduced in Rust by the harness, classes
+   json-empty-vector-type-lost and json-empty-named-tuple-rejected). *)
+Definition C13_json_roundtrip_full : Prop := forall t v, check_type v t = Ok true ->
+  exists j tv', print_tv t v = Ok j /\ parse_tv j = Ok tv' /\ is_equal (t, v) tv' = Ok true.
+Theorem C13_json_roundtrip_refuted_empty_vector :
+  exists t v j tv', check_type v t = Ok true /\ print_tv t v = Ok j /\ parse_tv j = Ok tv' /\
+                    is_equal (t, v) tv' = Ok false.
+Proof. exact json_roundtrip_refuted_empty_vector. Qed.
+Theorem C13_json_roundtrip_refuted_empty_named :
+  exists t v j, check_type v t = Ok true /\ print_tv t v = Ok j /\ parse_tv j = Err.
+Proof. exact json_roundtrip_refuted_empty_named. Qed.
+
+(* Non-vacuity: a nested value with an i16 minimum, a 3x3 bit array with stray bits, i128 -1 and
+   minimum inside a vector inside a named tuple, and 2^64-1; it is well formed, and the model
+   computes its round trip (the stray bits are dropped, everything else is identical). *)
+Example C13_json_example_wf : wf example_ty example_value.
+Proof. exact example_wf. Qed.
+Example C13_json_example_roundtrip :
+  exists j, print_tv example_ty example_value = Ok j /\
+            parse_tv j = Ok (example_ty,
+              BVec [BBytes [0; 128]; BBytes [255; 1];
+                    BVec [BVec [BBytes (repeat 255 16); BBytes (repeat 0 15 ++ [128])];
+                          BBytes (repeat 255 8 ++ repeat 0 8)]]).
+Proof. exact example_roundtrip. Qed.
+
+Print Assumptions C13_json_roundtrip.
+Print Assumptions C13_json_parse_total.
+Print Assumptions C13_json_prints_value.
+Print Assumptions C13_json_roundtrip_refuted_empty_vector.
+Print Assumptions C13_json_roundtrip_refuted_empty_named.
